@@ -157,7 +157,8 @@ def _(n, T):
 
 @shape("cstr_res_len", doc="strings.yaml getCharPtr2")
 def _(n, T):
-    return [F(n, {"kind": "cstr_len", "N": 30}, [P("a", "val", "int")])]
+    return [F(n, {"kind": "cstr_len", "N": 30}, [P("a", "val", "int")]),
+            F(n + "x", {"kind": "cstr_len", "N": 24, "lenexpr": "3*8"}, [P("a", "val", "int")])]
 
 
 @shape("str_cref", langs=("c++",), wraps=ALLW, doc="strings.yaml acceptStringConstReference")
@@ -212,7 +213,8 @@ def _(n, T):
 
 @shape("str_res_cref_len", langs=("c++",), doc="strings.yaml getConstStringRefLen")
 def _(n, T):
-    return [F(n, {"kind": "str_cref_len", "N": 30}, [P("a", "val", "int")])]
+    return [F(n, {"kind": "str_cref_len", "N": 30}, [P("a", "val", "int")]),
+            F(n + "x", {"kind": "str_cref_len", "N": 20, "lenexpr": "4*5"}, [P("a", "val", "int")])]
 
 
 @shape("str_concat", langs=("c++",), doc="tutorial.yaml ConcatenateStrings")
